@@ -60,12 +60,24 @@ func (p Pattern) Matches(s string) bool {
 	si := 0
 	pl := len(p)
 	sl := len(s)
+	// start tells if we are at the start of a token. The characters $, *, and >
+	// only have wildcard meaning at the start of a token.
+	start := true
 	for pi < pl {
 		if si == sl {
 			return false
 		}
 		c := p[pi]
 		pi++
+		if !start {
+			if c != s[si] {
+				return false
+			}
+			si++
+			start = c == '.'
+			continue
+		}
+		start = false
 		switch c {
 		case '$':
 			fallthrough
@@ -86,6 +98,7 @@ func (p Pattern) Matches(s string) bool {
 				return false
 			}
 			si++
+			start = c == '.'
 		}
 	}
 	return si == sl
